@@ -18,7 +18,7 @@ Model of the lock discipline of cluster operations (C20).
 
 A trace is a list of `acq k` / `rel k` events in program order.  Failed acquisitions (wait
 timeout) end an episode early with the deferred unlocks — a prefix of the acquisitions followed
-by releases, which is covered by the same discipline (see `run_prefix_ok` in ProofsOrder).
+by releases, which is covered by the same discipline (`failTrunc`, `failTrunc_ok` in ProofsOrder).
 -/
 namespace Eru.Lock
 
